@@ -1,7 +1,7 @@
 #!/bin/sh
 # usage: ./run_all.sh [quick|thorough] [props...]   -- runs the checks one after another and prints a summary
 tier=${1:-quick}; shift
-props=${*:-C01 C03 C04 C05 C06 C07 C08 C09 C10 C12 C13 C14 C15 C16 C17 C19}
+props=${*:-C01 C02 C03 C04 C05 C06 C07 C08 C09 C10 C12 C13 C14 C15 C16 C17 C19}
 here=$(cd "$(dirname "$0")" && pwd); cd "$here"; mkdir -p .work/logs
 for p in $props; do
   start=$(date +%s)
